@@ -14,6 +14,7 @@ use crate::proto::Line;
 use crate::render::MARK;
 use crate::rng::Rng;
 use crate::util::{bundled_maps, guarded};
+use rosu_map::section::hit_objects::hit_samples::HitSampleInfoName;
 use rosu_map::section::hit_objects::{HitObject, HitObjectKind};
 use rosu_map::section::Section;
 use rosu_map::{Beatmap, BeatmapState, DecodeBeatmap, DecodeState};
@@ -117,6 +118,13 @@ pub fn sample_extras(r: &mut Rng, level: u8) -> String {
     let custom = *r.pick(&[0i64, 0, 0, 1, 2, 3, -1, -2, 15]);
     let vol = *r.pick(&[0i64, 0, 100, 50, 1, 99, 101, -5, 70]);
     let file = *r.pick(&["", "", "", "hit.wav", "a b.ogg", "normal-hitnormal.wav", "日本.wav"]);
+    if level >= 1 && r.chance(1, 40) {
+        // text after the file name: a sixth `:` piece or one more `,` field (a name that ends in
+        // white space then keeps it: class D30)
+        let name = *r.pick(&["hit.wav", "hit.wav ", "s.ogg\t", " ", "a b.ogg", " lead.wav"]);
+        let tail = *r.pick(&[":x", ",x", ":", ",", ":0:0", ",0:0:0:0:"]);
+        return format!("{nb}:{ab}:{custom}:{vol}:{name}{tail}");
+    }
     match r.below(5) {
         0 => format!("{nb}:{ab}"),
         1 => format!("{nb}:{ab}:{custom}"),
@@ -388,6 +396,22 @@ pub fn d26_object(h: &HitObject) -> bool {
     !(end.abs() <= 2147483647.0)
 }
 
+/// D30: a sample file name that ends in white space (the encoder writes the name at the end
+/// of the line, where the decoder trims it)
+pub fn d30_object(h: &HitObject) -> bool {
+    h.samples.iter().any(|s| matches!(&s.name, HitSampleInfoName::File(f) if f.ends_with(char::is_whitespace)))
+}
+
+fn sample_names(h: &HitObject) -> Vec<String> {
+    h.samples
+        .iter()
+        .map(|s| match &s.name {
+            HitSampleInfoName::Default(d) => d.to_lowercase_str().to_string(),
+            HitSampleInfoName::File(f) => format!("file:{:?}", f),
+        })
+        .collect()
+}
+
 pub fn lost_class(h: &HitObject) -> &'static str {
     if d18_object(h) {
         "D21"
@@ -398,11 +422,25 @@ pub fn lost_class(h: &HitObject) -> &'static str {
     }
 }
 
-/// D26 for [TimingPoints] lines: the line of the sample point collected at such an end time
+/// D32: slider whose end time `start + duration` is outside the parse limits (the sample points
+/// collected at its node times are written as timing lines with such times)
+pub fn d32_object(h: &HitObject) -> bool {
+    match &h.kind {
+        HitObjectKind::Slider(s) => {
+            let mut s = s.clone();
+            let end = h.start_time + s.duration();
+            !(end.abs() <= 2147483647.0)
+        }
+        _ => false,
+    }
+}
+
+/// D26 / D32 for [TimingPoints] lines: the line of the sample point collected at such an end time
 fn d26_timing_line(map: &Beatmap, line: &str) -> &'static str {
     let t = line.split(',').next().and_then(|f| f.trim().parse::<f64>().ok());
     match t {
         Some(t) if !(t.abs() <= 2147483647.0) && map.hit_objects.iter().any(d26_object) => "D26",
+        Some(t) if !(t.abs() <= 2147483647.0) && map.hit_objects.iter().any(d32_object) => "D32",
         _ => "",
     }
 }
@@ -532,6 +570,9 @@ pub fn oracle(map: &mut Beatmap, input: &str, origin: &str, out: &mut Out) -> Op
                             let new = after.last().unwrap();
                             if kind_tag(new) != kind_tag(orig) || new.start_time.to_bits() != orig.start_time.to_bits() {
                                 out.fail("", &desc, &format!("hit-object line {:?} written for object #{} (kind {}, start {}) is read as kind {} start {}", l, obj_idx, kind_tag(orig), orig.start_time, kind_tag(new), new.start_time));
+                            } else if sample_names(new) != sample_names(orig) {
+                                // ... nor with other sample names (sample points are applied later; they do not touch names)
+                                out.fail(if d30_object(orig) { "D30" } else { "" }, &desc, &format!("hit-object line {:?} written for object #{} with sample names {:?} is read with sample names {:?}", l, obj_idx, sample_names(orig), sample_names(new)));
                             }
                         }
                     }
@@ -643,7 +684,7 @@ pub fn oracle_text(text: &str, origin: &str, out: &mut Out) {
 
 /// the recorded inputs of the findings made while mechanising T02b / T02d (fixed texts: they go
 /// through the `enc` correspondence and both oracles on every run)
-pub const RECORDED_INPUTS: [(&str, &str); 4] = [
+pub const RECORDED_INPUTS: [(&str, &str); 9] = [
     ("recorded-D26-spinner", "osu file format v14\n\n[HitObjects]\n256,192,-3112.53,12,0,2147483647,0:0:0:0:\n"),
     ("recorded-D26-hold", "osu file format v14\n\n[General]\nMode: 3\n\n[HitObjects]\n100,192,-3112.53,128,0,2147483647:0:0:0:0:\n"),
     (
@@ -654,6 +695,17 @@ pub const RECORDED_INPUTS: [(&str, &str); 4] = [
         "recorded-D28-near-time",
         "osu file format v14\n\n[TimingPoints]\n0,500,4,1,0,100,1,0\n0,-50,4,1,0,100,0,0\n\n[HitObjects]\n256,192,0.00000000000000001,1,0,0:0:0:50:\n",
     ),
+    // D30: the file name keeps its trailing white space because something follows it on the line
+    ("recorded-D30-circle-spinner", "osu file format v14\n\n[HitObjects]\n256,192,1000,1,0,0:0:0:0:a.wav ,x\n256,192,2000,12,0,3000,0:0:0:0:c.wav ,x\n"),
+    ("recorded-D30-hold", "osu file format v14\n\n[General]\nMode: 3\n\n[HitObjects]\n100,192,1000,128,0,2000:0:0:0:0:b.wav\t:x\n"),
+    ("recorded-D30-blank-name", "osu file format v14\n\n[HitObjects]\n256,192,1000,1,0,0:0:0:0: :x\n"),
+    // D32: a slider that ends beyond the parse limit; its node sample points are written as timing lines
+    (
+        "recorded-D32-slider-end-beyond-limit",
+        "osu file format v14\n\n[Difficulty]\nSliderMultiplier:0.4\n\n[TimingPoints]\n0,60000,4,1,0,100,1,0\n0,-1000,4,1,0,100,0,0\n\n[HitObjects]\n0,0,0,2,0,L|100000:0,2,100000,0|0|0,0:0:0:50:|0:0:0:60:|0:0:0:70:\n",
+    ),
+    // D31: a file name on a slider node
+    ("recorded-D31-node-file-name", "osu file format v14\n\n[HitObjects]\n100,100,1000,2,0,L|200:100,1,100,0|0,0:0:0:0:n.wav|0:0,0:0:0:0:\n"),
 ];
 
 pub fn generate(tier: &str, seed: u64, out: &mut Out) {
